@@ -172,7 +172,7 @@ class C03(Property):
     trusted = [
         "NUMPY broadcasting: a pointwise formula evaluated on the arrays returned by _unpack_distributions computes, at ensemble index "
         "idx, the formula on the values at idx (model `evalEnsemble`/`argsAt`; tied by correspondence on the real broadcast arrays)",
-        "hand model `Model/Distributions.lean` of _unpack_distributions, ensemble_shape, axes metadata, _partition_args/_partial_transform",
+        "hand model `Model/ParamEnsemble.lean` of _unpack_distributions, ensemble_shape, axes metadata, _partition_args/_partial_transform",
         "the numeric kernels (CTF phase, aperture, envelopes, Fresnel propagator with tilt) are uninterpreted in the theorems; "
         "member == scalar run on the real kernels is observed by the conformance oracle (rel. 1e-5, float32)",
     ]
